@@ -57,6 +57,10 @@ def plan(ctx):
         obs.append(Obligation(f"O4.ast_names.t{i}", "xh", "c01", "api_ast_names", param={"text": text}, timeout=T * 2,
                               bounds="N>=1 unbounded; host list <= 3", desc=f"eval({text!r}, ast_names={{g: lambda, k: expr}}): definitions and the lambdas they create are charged to this call"))
     from sqv.harness import c01 as h
+    for i, text in enumerate(h.EFFECTS):
+        obs.append(Obligation(f"O5.effects_bounded.t{i}", "xh", "c01", "effects_bounded", param={"t": i}, timeout=T * 2,
+                              bounds="150 recording host rows; budget N from 14 values in 1..300 (index symbolic); first or second evaluation of the tree",
+                              desc=f"eval({text!r}): fewer than N lambda-body evaluations read host data under budget N (each body evaluation is an operation, whatever its shape)"))
     for i, text in enumerate(h.REENTRANT):
         obs.append(Obligation(f"O4.reentrant.t{i}", "xh", "c01", "api_reentrant", param={"text": text}, timeout=T * 2,
                               bounds="outer budget N and inner budget unbounded; host list <= 2",
